@@ -565,7 +565,7 @@ SPEC = harness.Spec(
         "operation, and a message naming `<Class>.<op>` (the collection's own guard); an incidental low-level "
         "panic such as `Index out of bounds` reached because the guard is missing is reported",
     ],
-    shards={"quick": 16, "thorough": 16}, budget_s={"quick": 100, "thorough": 800},
+    shards={"quick": 16, "thorough": 16}, budget_s={"quick": 90, "thorough": 800},
     params={"quick": {"batches": 6, "badsets": 2}, "thorough": {"batches": 60, "badsets": 18}},
     min_nontrivial=20,
 )
